@@ -1,6 +1,20 @@
 """Per-property metadata used by the runner (levels, explanations)."""
 
 PROPS = {
+    "C13": {
+        "level": "other",
+        "explanation": "effect confinement: transitive may-effects (fs effects by path class, lock "
+                       "acquisitions, container events) of the non-consuming transaction API and of the drop "
+                       "glue, over the resolved call graph incl. drop glue and callbacks",
+        "not_decided": "run-time directory listings; exactness of 'only its own intent' is C04-R5",
+    },
+    "C06": {
+        "level": "other",
+        "explanation": "effect ownership over cas/: every fs effect site in the crate is classified by path "
+                       "class (value-flow over MIR) and judged against a closed list; flush-before-publish and "
+                       "provenance of the rename operands decided on all paths",
+        "not_decided": "re-hashing files at run time; BLAKE3 collision resistance; what the filesystem does",
+    },
     "C09": {
         "level": "proof",
         "explanation": "all-paths sync-ordering protocol in SyncMode::Sync decided on rustc MIR: must-happened-"
